@@ -1,4 +1,5 @@
 import VlsModel.Lemmas.Bolt3
+import VlsModel.Lemmas.Bolt3Bytes
 /-
 C04 — Commitment signatures bind to the BOLT-3 transaction of the validated content.
 
@@ -245,6 +246,82 @@ theorem C04_htlc_sigs_canon (env : Env) (s : Setup) (k : Keys) (c : Content) (si
     simp only [hvout, Nat.zero_add, List.getElem?_map]
     rw [hj, heq]
     rfl
+
+/-! ## Byte layer (`Model/Bolt3Bytes.lean`)
+
+The byte-level instance of the model: `H := Nat` (256-bit P2WSH programs), `wshB env` = SHA-256 (executable,
+`Prim/Sha256.lean`) of the real script bytes of the template, `okeyB env` = the lexicographic byte order
+of script_pubkeys, `ser env` = the witness-less consensus serialisation.  The harness compares
+`ser (canon c)` with the bytes of the transaction LDK really builds on every generated content.
+
+What is proved: `ser` is injective on well-formed structured transactions, so "byte for byte equal"
+and "structurally equal" coincide and the theorems above speak about bytes; `okeyB` is injective
+(so that hypothesis of `C04_phase_agree` is discharged by this instance, given only that HASH160 does
+not collide on the channel's finitely many keys — decidable, `wfEnv`).
+What stays a hypothesis: `Function.Injective (wshB env)`, i.e. SHA-256 collision freedom on script
+serialisations (no executable hash can be *proved* injective; it is false for any compressing function
+and only computationally infeasible to refute). -/
+
+section bytes
+variable {M S : Type} (env : BEnv) (crB : Crypto Nat M S)
+
+/-- **C04_ser_injective.**  On well-formed structured transactions, equal bytes ⇔ equal structure. -/
+theorem C04_ser_injective (henv : wfEnv env = true) (a b : CTx Nat)
+    (wa : wfTx env a = true) (wb : wfTx env b = true) : ser env a = ser env b ↔ a = b :=
+  ⟨ser_injective env (wfEnv_iff env henv) a b wa wb, fun h => by rw [h]⟩
+
+/-- The canonical transaction of a content that fits the wire widths is a well-formed structured tx. -/
+theorem C04_canon_wfTx (s : Setup) (k : Keys) (c : Content) (tx : CTx Nat)
+    (hf : fits env s k c = true) (hc : canon (wshB env) (okeyB env) s k c = some tx) :
+    wfTx env tx = true := canon_wfTx env s k c tx hf hc
+
+/-- **C04_phase1_accepts_only_canon_bytes.**  At the byte level: what phase 1 accepts serialises to
+    exactly the bytes of the canonical transaction of the decoded content, and the signature is over
+    that canonical transaction. -/
+theorem C04_phase1_accepts_only_canon_bytes (e : Env) (hm : e.mismatchIsError = true) (s : Setup) (k : Keys)
+    (tx : CTx Nat) (ws : List (Option Script)) (commitNum feerate : Nat) (offered received : List Htlc) (sig : S)
+    (h : phase1 (wshB env) (okeyB env) crB e s k tx ws commitNum feerate offered received = .ok sig) :
+    ∃ info rtx,
+      decode (wshB env) s k tx ws = some info ∧
+      canon (wshB env) (okeyB env) s k (decodedContent info commitNum feerate offered received) = some rtx ∧
+      ser env tx = ser env rtx ∧ sig = crB.sign e.fundingKey (crB.sighash rtx) := by
+  obtain ⟨info, rtx, h1, h2, h3, h4⟩ :=
+    C04_phase1_accepts_only_canon (wshB env) (okeyB env) crB e s k tx ws commitNum feerate offered received sig h
+  exact ⟨info, rtx, h1, h2, by rw [h4 hm], h3⟩
+
+/-- **C04_equality_test_bytewise.**  The structural test `recomposed ≠ tx` of the model is the byte
+    comparison of the implementation: for a well-formed submitted transaction it fails exactly when
+    the serialisations differ. -/
+theorem C04_equality_test_bytewise (henv : wfEnv env = true) (s : Setup) (k : Keys) (c : Content)
+    (tx rtx : CTx Nat) (hf : fits env s k c = true) (hc : canon (wshB env) (okeyB env) s k c = some rtx)
+    (wtx : wfTx env tx = true) : rtx ≠ tx ↔ ser env rtx ≠ ser env tx := by
+  have := C04_ser_injective env henv rtx tx (canon_wfTx env s k c rtx hf hc) wtx
+  exact not_congr this.symm
+
+/-- **C04_phase_agree_bytes.**  Phase agreement at the byte-level instance: the order-key hypothesis
+    is discharged (`okeyB_injective`); SHA-256 collision freedom remains the only cryptographic
+    hypothesis. -/
+theorem C04_phase_agree_bytes (henv : wfEnv env = true) (hsha : Function.Injective (wshB env))
+    (e : Env) (s : Setup) (k : Keys) (c : Content) (hwf : wf s k c = true) (sig : S) (hsigs : List S)
+    (h : phase2 (wshB env) (okeyB env) crB e s k c = .ok (sig, hsigs)) :
+    ∃ tx, canon (wshB env) (okeyB env) s k c = some tx ∧
+      phase1 (wshB env) (okeyB env) crB e s k tx (canonWs (wshB env) (okeyB env) s k c)
+        c.commitNum c.feerate c.offered c.received = .ok sig :=
+  C04_phase_agree (wshB env) (okeyB env) crB hsha (okeyB_injective env (wfEnv_iff env henv)) e s k c hwf sig hsigs h
+
+/-- a concrete environment (7 channel keys with distinct HASH160 values): `wfEnv` holds by evaluation,
+    hence `okeyB env0` is an injective order key — an instance, not an assumption -/
+def env0 : BEnv :=
+  { nKeys := 8, keyBytes := fun k => List.replicate 33 (UInt8.ofNat k), keyHash160 := fun k => 1000 + k,
+    payHash160 := fun h => h }
+
+example : wfEnv env0 = true := by decide
+example : Function.Injective (okeyB env0) := okeyB_injective env0 (wfEnv_iff env0 (by decide))
+/-- the sample content of the non-vacuity section fits the wire widths (hypothesis of `C04_canon_wfTx`) -/
+example : fits env0 ⟨.staticRemoteKey, true, 6, 7, 2, 0, 3000000, 0x2bb038521914⟩ ⟨1, 2, 3, 4, 5, 6, 7⟩
+    ⟨23, 1000, 1000000, 1979997, [⟨4000, 1, 131072⟩], [⟨5000, 3, 196608⟩, ⟨10003, 5, 262144⟩]⟩ = true := by decide
+
+end bytes
 
 /-! ## The full-strength agreement claim fails for the deprecated type `Anchors`
 
